@@ -7,7 +7,7 @@ from bounded import realrun
 from harness import loader
 from specs import lex
 
-LINES = ["a = 1", "b = 'x", "b = 'x&", "w = 'p &", "y'", "&", "  & c", "d &", "&e &", "! com", "", "f; g", "s = '!;&' // &", "   t = \"it's\" ! c;d", "&  z'", "q = ''''"]
+LINES = ["a = 1", "b = 'x", "b = 'x&", "w = 'p &", "y'", "&", "  & c", "d &", "&e &", "! com", "", "f; g", "s = '!;&' // &", "   t = \"it's\" ! c;d", "&  z'", "q = ''''", "& y' ! c", "&n''t' // 'x' ! c;d"]
 
 
 class Invalid(Exception):
